@@ -106,6 +106,9 @@ def check_c03(ctx):
     validate_traces(ctx, "C03", traces, cases, False, "scripted", set(C03_CLAUSES))
     ctx.cov["distinct_nontrivial"] = len({json.dumps(c, sort_keys=True) for c in cases})
     ctx.cov["samples"] = [traces[0], traces[len(traces) // 2]]
+    # growth of the specification: the high-level client that wraps this handshake
+    from harness.props import clientsession
+    clientsession.growth(ctx, quick)
 
 
 def check_c04(ctx):
